@@ -116,24 +116,10 @@ func enumStmts(n int, d int, exprs []string) []stmtT {
 	return out
 }
 
-// a loop body terminates for sure when its last top-level statement is `break` or a
-// `return`, and it contains no `continue` (conservative, textual)
+// a loop body terminates for sure when its last top-level statement is `break` or `return`
+// and it contains no `continue` (conservative)
 func loopTerminates(body string) bool {
-	if strings.Contains(body, "continue") {
-		return false
-	}
-	b := strings.TrimSpace(body)
-	if strings.HasSuffix(b, "break") {
-		// the break must be at the top level of the body: not inside a trailing if/loop
-		return !strings.HasSuffix(b, "end break") || true
-	}
-	// ends with `return <expr>` at top level: approximate by "last keyword is return"
-	i := strings.LastIndex(b, "return ")
-	if i < 0 {
-		return false
-	}
-	tail := b[i:]
-	return !strings.Contains(tail, " end") && !strings.Contains(tail, " then") && !strings.Contains(tail, "loop")
+	return !strings.Contains(body, "continue") && topLevelLastIsBreak(body)
 }
 
 func topLevelLastIsBreak(body string) bool {
@@ -141,7 +127,7 @@ func topLevelLastIsBreak(body string) bool {
 	toks := strings.Fields(body)
 	depth := 0
 	last := ""
-	for i, t := range toks {
+	for _, t := range toks {
 		switch t {
 		case "if", "loop":
 			if depth == 0 {
@@ -155,7 +141,6 @@ func topLevelLastIsBreak(body string) bool {
 				last = t
 			}
 		}
-		_ = i
 	}
 	return last == "break" || last == "return"
 }
@@ -175,7 +160,7 @@ func (g *c12gen) add(prefix, ctx, body string, run bool, class string) {
 	g.cases = append(g.cases, Case{
 		ID:     fmt.Sprintf("%s%d", prefix, g.n),
 		Op:     "proc",
-		Fields: []string{ctx, hx(body), procEnv(ctx), r},
+		Fields: []string{ctx, hx(body), procEnv(ctx), r, class},
 		Meta:   map[string]string{"class": class},
 	})
 	g.st.Counts["c12_"+class+"_"+ctx]++
@@ -216,7 +201,7 @@ func randStmts(r *rand.Rand, n int, d int, inLoop bool) (string, bool) {
 				b += " break"
 			}
 			parts = append(parts, "loop "+b+" end")
-			runnable = runnable && r1 && topLevelLastIsBreak(b)
+			runnable = runnable && r1 && loopTerminates(b)
 		default:
 			parts = append(parts, "set x to "+randExpr(r, 1))
 		}
